@@ -384,6 +384,426 @@ Section Names.
   Proof. apply decode_name_hops. unfold HOP_FUEL. rewrite N2Nat.id. lia. Qed.
 End Names.
 
+(* ------------------------------------------------------------------ *)
+(* 4. fields, RDATA, records, questions, sequences                     *)
+(* ------------------------------------------------------------------ *)
+
+Lemma fine_bind {E A B} (r : res E A) (f : A -> res E B) :
+  fine r -> (forall a, r = Ok a -> fine (f a)) -> fine (bind r f).
+Proof.
+  intros [H1 H2] Hf. destruct r; cbn [bind]; auto; contradiction.
+Qed.
+
+Lemma of_opt_fine {E A} (o : option A) (e : E) : fine (of_opt o e).
+Proof. destruct o; cbn [of_opt]; auto. Qed.
+
+(* normalise p + a + b with literal a, b *)
+Ltac norm_pos :=
+  repeat match goal with
+         | |- context[?a + Npos ?b + Npos ?c] =>
+           let v := eval vm_compute in (Npos b + Npos c) in
+           replace (a + Npos b + Npos c) with (a + v) by lia
+         end.
+
+Ltac inv_bind H :=
+  match type of H with
+  | bind ?r _ = Ok _ =>
+    let Eq := fresh "Eq" in
+    destruct r as [[? ?]| | |] eqn:Eq; cbn [bind] in H; [|discriminate H..]
+  end.
+
+Section Body.
+  Variable bs : list byte.
+  Hypothesis Hbs : bytes_ok bs.
+  Variable id : N.
+
+  (* ---- fixed-width fields ---- *)
+  Lemma u16_or_sound k p v c1 : u16_or id k (at_offset bs p) = Ok (v, c1) ->
+    u16At bs p v /\ c1 = at_offset bs (p + 2) /\ p + 2 <= llen bs.
+  Proof.
+    unfold u16_or. rewrite next_u16_at. intro H.
+    destruct (at_ bs p) as [a|] eqn:Ea; [|discriminate].
+    destruct (at_ bs (p + 1)) as [b|] eqn:Eb; [|discriminate].
+    cbn [of_opt] in H. injection H as <- <-.
+    split; [exists a, b; auto|]. split; [reflexivity|]. apply at_lt in Eb. lia.
+  Qed.
+
+  Lemma u16_or_complete k p v : u16At bs p v ->
+    u16_or id k (at_offset bs p) = Ok (v, at_offset bs (p + 2)).
+  Proof.
+    intros (a & b & Ea & Eb & ->). unfold u16_or. rewrite next_u16_at, Ea, Eb. reflexivity.
+  Qed.
+
+  Lemma u32_or_sound k p v c1 : u32_or id k (at_offset bs p) = Ok (v, c1) ->
+    u32At bs p v /\ c1 = at_offset bs (p + 4) /\ p + 4 <= llen bs.
+  Proof.
+    unfold u32_or. rewrite next_u32_at. intro H.
+    destruct (at_ bs p) as [a|] eqn:Ea; [|discriminate].
+    destruct (at_ bs (p + 1)) as [b|] eqn:Eb; [|discriminate].
+    destruct (at_ bs (p + 2)) as [c|] eqn:Ec; [|discriminate].
+    destruct (at_ bs (p + 3)) as [d|] eqn:Ed; [|discriminate].
+    cbn [of_opt] in H. injection H as <- <-.
+    split; [exists a, b, c, d; auto 6|]. split; [reflexivity|]. apply at_lt in Ed. lia.
+  Qed.
+
+  Lemma u32_or_complete k p v : u32At bs p v ->
+    u32_or id k (at_offset bs p) = Ok (v, at_offset bs (p + 4)).
+  Proof.
+    intros (a & b & c & d & Ea & Eb & Ec & Ed & ->). unfold u32_or.
+    rewrite next_u32_at, Ea, Eb, Ec, Ed. reflexivity.
+  Qed.
+
+  Lemma u16_or_fine k c : fine (u16_or id k c).
+  Proof. apply of_opt_fine. Qed.
+  Lemma u32_or_fine k c : fine (u32_or id k c).
+  Proof. apply of_opt_fine. Qed.
+
+  Lemma u16_or_err k c e : u16_or id k c = Err e -> snd e = Some id.
+  Proof. unfold u16_or, of_opt. destruct (next_u16 c); [discriminate|]. intros [= <-]. reflexivity. Qed.
+  Lemma u32_or_err k c e : u32_or id k c = Err e -> snd e = Some id.
+  Proof. unfold u32_or, of_opt. destruct (next_u32 c); [discriminate|]. intros [= <-]. reflexivity. Qed.
+
+  (* ---- names ---- *)
+  Lemma dname_at_sound p n c1 : dname_at bs id (at_offset bs p) = Ok (n, c1) ->
+    exists next, NameIs bs p n next /\ c1 = at_offset bs next /\ next <= llen bs.
+  Proof.
+    unfold dname_at. destruct (decode_name HOP_FUEL bs (at_offset bs p)) as [[n' c']| | |] eqn:Ed;
+      try discriminate.
+    intros [= <- <-]. eapply decode_name_sound; eassumption.
+  Qed.
+
+  Lemma dname_at_complete p n next : NameIs bs p n next ->
+    dname_at bs id (at_offset bs p) = Ok (n, at_offset bs next).
+  Proof.
+    intros (Hna & Hl & H255). unfold dname_at.
+    assert (Hs : sum_lens (labels n) <= 255) by lia.
+    destruct (decode_name_complete bs Hbs HOP_FUEL p (labels n) next Hna Hs) as [Ed|Ed].
+    - destruct (decode_name_fuel bs Hbs p) as [_ HF]. contradiction.
+    - rewrite Ed. destruct n as [ls ln]. cbn [labels nlen] in *. subst ln. reflexivity.
+  Qed.
+
+  Lemma dname_at_fine p : fine (dname_at bs id (at_offset bs p)).
+  Proof.
+    unfold dname_at. destruct (decode_name_fuel bs Hbs p) as [HP HF].
+    destruct (decode_name HOP_FUEL bs (at_offset bs p)); auto; exfalso; congruence.
+  Qed.
+
+  Lemma dname_at_err c e : dname_at bs id c = Err e -> snd e = Some id.
+  Proof.
+    unfold dname_at. destruct (decode_name HOP_FUEL bs c); try discriminate.
+    intros [= <-]. reflexivity.
+  Qed.
+
+  (* ---- the eight segments of an AAAA ---- *)
+  Lemma decode_u16s_sound : forall k p vs c1, p <= llen bs ->
+    decode_u16s id k (at_offset bs p) = Ok (vs, c1) ->
+    length vs = k /\ u16sAt bs p vs /\ c1 = at_offset bs (p + 2 * N.of_nat k)
+    /\ p + 2 * N.of_nat k <= llen bs.
+  Proof.
+    induction k as [|k IH]; intros p vs c1 Hp H; cbn [decode_u16s] in H.
+    - injection H as <- <-. split; [reflexivity|]. split; [exact I|]. split; [f_equal; lia|lia].
+    - inv_bind H. apply u16_or_sound in Eq as (Hv & -> & Hl).
+      inv_bind H. apply IH in Eq as (Hlen & Hvs & -> & Hl2); [|exact Hl].
+      injection H as <- <-. cbn [length u16sAt].
+      split; [congruence|]. split; [split; assumption|]. split; [f_equal; lia|lia].
+  Qed.
+
+  Lemma decode_u16s_complete : forall vs p, u16sAt bs p vs ->
+    decode_u16s id (length vs) (at_offset bs p) = Ok (vs, at_offset bs (p + 2 * llen vs)).
+  Proof.
+    induction vs as [|v vs IH]; intros p H; cbn [length decode_u16s].
+    - do 2 f_equal. f_equal. unfold llen. cbn [length]. lia.
+    - destruct H as [Hv Hvs]. rewrite (u16_or_complete _ _ _ Hv). cbn [bind].
+      rewrite (IH _ Hvs). cbn [bind]. do 2 f_equal. f_equal. rewrite wd_llen_cons. lia.
+  Qed.
+
+  Lemma decode_u16s_fine : forall k c, fine (decode_u16s id k c).
+  Proof.
+    induction k as [|k IH]; intro c; cbn [decode_u16s]; [auto|].
+    apply fine_bind; [apply u16_or_fine|]. intros [v c1] _.
+    apply fine_bind; [apply IH|]. intros [vs c2] _. auto.
+  Qed.
+
+  Lemma decode_u16s_err : forall k c e, decode_u16s id k c = Err e -> snd e = Some id.
+  Proof.
+    induction k as [|k IH]; intros c e H; cbn [decode_u16s] in H; [discriminate|].
+    destruct (u16_or id ResourceRecordTooShort c) as [[v c1]|e1| |] eqn:E1; cbn [bind] in H; try discriminate.
+    - destruct (decode_u16s id k c1) as [[vs c2]|e2| |] eqn:E2; cbn [bind] in H; try discriminate.
+      injection H as <-. eapply IH; eassumption.
+    - injection H as <-. eapply u16_or_err; eassumption.
+  Qed.
+
+  (* ---- RDATA ---- *)
+  Lemma decode_rdata_sound ty len p d c1 : p <= llen bs ->
+    decode_rdata bs id ty len (at_offset bs p) = Ok (d, c1) ->
+    exists next, RDataAt bs ty len p d next /\ c1 = at_offset bs next /\ next <= llen bs.
+  Proof.
+    intros Hp H. unfold decode_rdata in H. destruct (shape_of_type ty) eqn:Esh.
+    - (* A *)
+      inv_bind H. apply u32_or_sound in Eq as (Ha & -> & Hl). injection H as <- <-.
+      exists (p + 4). split; [apply RDA_A; assumption|auto].
+    - (* name *)
+      inv_bind H. apply dname_at_sound in Eq as (nx & Hn & -> & Hl). injection H as <- <-.
+      exists nx. split; [apply RDA_Name; assumption|auto].
+    - (* SOA *)
+      inv_bind H. apply dname_at_sound in Eq as (p1 & Hm & -> & Hl1).
+      inv_bind H. apply dname_at_sound in Eq as (p2 & Hr & -> & Hl2).
+      inv_bind H. apply u32_or_sound in Eq as (H1 & -> & Hl3).
+      inv_bind H. apply u32_or_sound in Eq as (H2 & -> & Hl4).
+      inv_bind H. apply u32_or_sound in Eq as (H3 & -> & Hl5).
+      inv_bind H. apply u32_or_sound in Eq as (H4 & -> & Hl6).
+      inv_bind H. apply u32_or_sound in Eq as (H5 & -> & Hl7).
+      injection H as <- <-. exists (p2 + 20).
+      split; [|split; [f_equal; lia|lia]].
+      eapply RDA_SOA; eauto; [plia H3|plia H4|plia H5].
+    - (* octets *)
+      rewrite take_at in H by exact Hp.
+      destruct (sliceN bs p len) as [os|] eqn:Eos; [|discriminate]. injection H as <- <-.
+      exists (p + len). split; [apply RDA_Octets; assumption|]. split; [reflexivity|].
+      apply sliceN_spec in Eos. tauto.
+    - (* MINFO *)
+      inv_bind H. apply dname_at_sound in Eq as (p1 & Hm & -> & Hl1).
+      inv_bind H. apply dname_at_sound in Eq as (p2 & Hr & -> & Hl2).
+      injection H as <- <-. exists p2. split; [eapply RDA_MINFO; eauto|auto].
+    - (* MX *)
+      inv_bind H. apply u16_or_sound in Eq as (H1 & -> & Hl1).
+      inv_bind H. apply dname_at_sound in Eq as (nx & Hn & -> & Hl2).
+      injection H as <- <-. exists nx. split; [apply RDA_MX; assumption|auto].
+    - (* AAAA *)
+      inv_bind H. apply decode_u16s_sound in Eq as (Hlen & Hs & -> & Hl); [|exact Hp].
+      injection H as <- <-. exists (p + 16).
+      split; [apply RDA_AAAA; assumption|]. split; [f_equal; lia|lia].
+    - (* SRV *)
+      inv_bind H. apply u16_or_sound in Eq as (H1 & -> & Hl1).
+      inv_bind H. apply u16_or_sound in Eq as (H2 & -> & Hl2).
+      inv_bind H. apply u16_or_sound in Eq as (H3 & -> & Hl3).
+      inv_bind H. apply dname_at_sound in Eq as (nx & Hn & -> & Hl4).
+      injection H as <- <-. exists nx.
+      split; [|auto]. apply RDA_SRV; [assumption|assumption|assumption|plia H3|plia Hn].
+  Qed.
+
+  Lemma decode_rdata_complete ty len p d next : p <= llen bs ->
+    RDataAt bs ty len p d next ->
+    decode_rdata bs id ty len (at_offset bs p) = Ok (d, at_offset bs next).
+  Proof.
+    intros Hp H. unfold decode_rdata.
+    destruct H as [a Hsh Ha | n nx Hsh Hn | m r serial refresh retry expire minimum p1 p2 Hsh Hm Hr H1 H2 H3 H4 H5
+                  | os Hsh Hos | r e p1 p2 Hsh Hr He | pr e nx Hsh Hp1 He | segs Hsh Hlen Hs
+                  | pr w o t nx Hsh H1 H2 H3 Ht]; rewrite Hsh.
+    - rewrite (u32_or_complete _ _ _ Ha). reflexivity.
+    - rewrite (dname_at_complete _ _ _ Hn). reflexivity.
+    - rewrite (dname_at_complete _ _ _ Hm). cbn [bind].
+      rewrite (dname_at_complete _ _ _ Hr). cbn [bind].
+      rewrite (u32_or_complete _ _ _ H1). cbn [bind].
+      rewrite (u32_or_complete _ _ _ H2). cbn [bind]. norm_pos.
+      rewrite (u32_or_complete _ _ _ H3). cbn [bind]. norm_pos.
+      rewrite (u32_or_complete _ _ _ H4). cbn [bind]. norm_pos.
+      rewrite (u32_or_complete _ _ _ H5). cbn [bind]. norm_pos. reflexivity.
+    - rewrite take_at by exact Hp. unfold octetsAt in Hos. rewrite Hos. reflexivity.
+    - rewrite (dname_at_complete _ _ _ Hr). cbn [bind].
+      rewrite (dname_at_complete _ _ _ He). reflexivity.
+    - rewrite (u16_or_complete _ _ _ Hp1). cbn [bind].
+      rewrite (dname_at_complete _ _ _ He). reflexivity.
+    - rewrite <- Hlen. rewrite (decode_u16s_complete _ _ Hs). cbn [bind].
+      unfold llen. rewrite Hlen. do 2 f_equal.
+    - rewrite (u16_or_complete _ _ _ H1). cbn [bind].
+      rewrite (u16_or_complete _ _ _ H2). cbn [bind]. norm_pos.
+      rewrite (u16_or_complete _ _ _ H3). cbn [bind]. norm_pos.
+      rewrite (dname_at_complete _ _ _ Ht). reflexivity.
+  Qed.
+
+  Lemma decode_rdata_fine ty len p : p <= llen bs ->
+    fine (decode_rdata bs id ty len (at_offset bs p)).
+  Proof.
+    intro Hp. unfold decode_rdata. destruct (shape_of_type ty).
+    - apply fine_bind; [apply u32_or_fine|]. intros [a c] _. auto.
+    - apply fine_bind; [apply dname_at_fine|]. intros [a c] _. auto.
+    - apply fine_bind; [apply dname_at_fine|]. intros [m c1] Eq.
+      apply dname_at_sound in Eq as (p1 & _ & -> & _).
+      apply fine_bind; [apply dname_at_fine|]. intros [r c2] _.
+      repeat (apply fine_bind; [apply u32_or_fine|]; intros [? ?] _). auto.
+    - destruct (take len (at_offset bs p)) as [[os c]|]; auto.
+    - apply fine_bind; [apply dname_at_fine|]. intros [m c1] Eq.
+      apply dname_at_sound in Eq as (p1 & _ & -> & _).
+      apply fine_bind; [apply dname_at_fine|]. intros [r c2] _. auto.
+    - apply fine_bind; [apply u16_or_fine|]. intros [v c1] Eq.
+      apply u16_or_sound in Eq as (_ & -> & _).
+      apply fine_bind; [apply dname_at_fine|]. intros [r c2] _. auto.
+    - apply fine_bind; [apply decode_u16s_fine|]. intros [v c1] _. auto.
+    - apply fine_bind; [apply u16_or_fine|]. intros [v1 c1] Eq.
+      apply u16_or_sound in Eq as (_ & -> & _).
+      apply fine_bind; [apply u16_or_fine|]. intros [v2 c2] Eq.
+      apply u16_or_sound in Eq as (_ & -> & _).
+      apply fine_bind; [apply u16_or_fine|]. intros [v3 c3] Eq.
+      apply u16_or_sound in Eq as (_ & -> & _).
+      apply fine_bind; [apply dname_at_fine|]. intros [r c4] _. auto.
+  Qed.
+
+  (* an error of a bind chain comes from one of its steps *)
+  Ltac err_bind_with H extra :=
+    repeat match type of H with
+           | bind ?r _ = Err _ =>
+             let Eq := fresh "Eq" in
+             destruct r as [[? ?]|?| |] eqn:Eq; cbn [bind] in H;
+             [ | injection H as <-;
+                 first [ eapply u16_or_err; eassumption | eapply u32_or_err; eassumption
+                       | eapply dname_at_err; eassumption | eapply decode_u16s_err; eassumption
+                       | extra ]
+               | discriminate H | discriminate H ]
+           end.
+  Ltac err_bind H := err_bind_with H fail.
+
+  Lemma decode_rdata_err ty len c e : decode_rdata bs id ty len c = Err e -> snd e = Some id.
+  Proof.
+    intro H. unfold decode_rdata in H. destruct (shape_of_type ty); err_bind H; try discriminate H.
+    destruct (take len c) as [[os c1]|]; [discriminate|]. injection H as <-. reflexivity.
+  Qed.
+
+  (* ---- resource records ---- *)
+  Lemma decode_rr_sound p r c' : decode_rr bs id (at_offset bs p) = Ok (r, c') ->
+    exists next, RRAt bs p r next /\ c' = at_offset bs next /\ next <= llen bs.
+  Proof.
+    intro H. unfold decode_rr in H.
+    inv_bind H. apply dname_at_sound in Eq as (p1 & Hn & -> & Hl0).
+    inv_bind H. apply u16_or_sound in Eq as (Hty & -> & Hl1).
+    inv_bind H. apply u16_or_sound in Eq as (Hcl & -> & Hl2).
+    inv_bind H. apply u32_or_sound in Eq as (Httl & -> & Hl3).
+    inv_bind H. apply u16_or_sound in Eq as (Hlen & -> & Hl4).
+    inv_bind H. apply decode_rdata_sound in Eq as (next & Hd & -> & Hl5); [|exact Hl4].
+    change (cpos (at_offset bs next)) with next in H.
+    change (cpos (at_offset bs (p1 + 2 + 2 + 4 + 2))) with (p1 + 2 + 2 + 4 + 2) in H.
+    match type of H with (if ?a =? ?b then _ else _) = _ => destruct (N.eqb_spec a b) as [Hstop|] end;
+      [|discriminate].
+    injection H as <- <-. exists next. split; [|auto].
+    exists p1. eexists. cbn [rr_name rr_type rr_class rr_ttl rr_data].
+    split; [exact Hn|]. split; [exact Hty|]. split; [exact Hcl|]. split; [plia Httl|].
+    split; [plia Hlen|]. split; [plia Hd|]. lia.
+  Qed.
+
+  Lemma decode_rr_complete p r next : RRAt bs p r next ->
+    decode_rr bs id (at_offset bs p) = Ok (r, at_offset bs next).
+  Proof.
+    intros (p1 & len & Hn & Hty & Hcl & Httl & Hlen & Hd & Hnext). unfold decode_rr.
+    rewrite (dname_at_complete _ _ _ Hn). cbn [bind].
+    rewrite (u16_or_complete _ _ _ Hty). cbn [bind].
+    rewrite (u16_or_complete _ _ _ Hcl). cbn [bind]. norm_pos.
+    rewrite (u32_or_complete _ _ _ Httl). cbn [bind]. norm_pos.
+    rewrite (u16_or_complete _ _ _ Hlen). cbn [bind]. norm_pos.
+    assert (Hp10 : p1 + 10 <= llen bs).
+    { destruct Hlen as (a & b & _ & Eb & _). apply at_lt in Eb. lia. }
+    rewrite (decode_rdata_complete _ _ _ _ _ Hp10 Hd). cbn [bind].
+    change (cpos (at_offset bs next)) with next.
+    change (cpos (at_offset bs (p1 + 10))) with (p1 + 10).
+    rewrite (proj2 (N.eqb_eq _ _) Hnext). destruct r; reflexivity.
+  Qed.
+
+  Lemma decode_rr_fine p : fine (decode_rr bs id (at_offset bs p)).
+  Proof.
+    unfold decode_rr.
+    apply fine_bind; [apply dname_at_fine|]. intros [n c1] Eq.
+    apply dname_at_sound in Eq as (p1 & _ & -> & _).
+    apply fine_bind; [apply u16_or_fine|]. intros [v1 c2] Eq. apply u16_or_sound in Eq as (_ & -> & _).
+    apply fine_bind; [apply u16_or_fine|]. intros [v2 c3] Eq. apply u16_or_sound in Eq as (_ & -> & _).
+    apply fine_bind; [apply u32_or_fine|]. intros [v3 c4] Eq. apply u32_or_sound in Eq as (_ & -> & _).
+    apply fine_bind; [apply u16_or_fine|]. intros [v4 c5] Eq. apply u16_or_sound in Eq as (_ & -> & Hl).
+    apply fine_bind; [apply decode_rdata_fine; exact Hl|]. intros [d c6] _.
+    match goal with |- fine (if ?b then _ else _) => destruct b end; auto.
+  Qed.
+
+  Lemma decode_rr_err c e : decode_rr bs id c = Err e -> snd e = Some id.
+  Proof.
+    intro H. unfold decode_rr in H.
+    err_bind_with H ltac:(eapply decode_rdata_err; eassumption).
+    match type of H with (if ?b then _ else _) = _ => destruct b end; [discriminate|].
+    injection H as <-. reflexivity.
+  Qed.
+
+  (* ---- questions ---- *)
+  Lemma decode_question_sound p q c' : decode_question bs id (at_offset bs p) = Ok (q, c') ->
+    exists next, QuestionAt bs p q next /\ c' = at_offset bs next /\ next <= llen bs.
+  Proof.
+    intro H. unfold decode_question in H.
+    inv_bind H. apply dname_at_sound in Eq as (p1 & Hn & -> & Hl0).
+    inv_bind H. apply u16_or_sound in Eq as (Hty & -> & Hl1).
+    inv_bind H. apply u16_or_sound in Eq as (Hcl & -> & Hl2).
+    injection H as <- <-. exists (p1 + 4). split; [|split; [f_equal; lia|lia]].
+    exists p1. cbn [q_name q_type q_class]. auto.
+  Qed.
+
+  Lemma decode_question_complete p q next : QuestionAt bs p q next ->
+    decode_question bs id (at_offset bs p) = Ok (q, at_offset bs next).
+  Proof.
+    intros (p1 & Hn & Hty & Hcl & ->). unfold decode_question.
+    rewrite (dname_at_complete _ _ _ Hn). cbn [bind].
+    rewrite (u16_or_complete _ _ _ Hty). cbn [bind].
+    rewrite (u16_or_complete _ _ _ Hcl). cbn [bind]. norm_pos. destruct q; reflexivity.
+  Qed.
+
+  Lemma decode_question_fine p : fine (decode_question bs id (at_offset bs p)).
+  Proof.
+    unfold decode_question.
+    apply fine_bind; [apply dname_at_fine|]. intros [n c1] _.
+    apply fine_bind; [apply u16_or_fine|]. intros [v1 c2] _.
+    apply fine_bind; [apply u16_or_fine|]. intros [v2 c3] _. auto.
+  Qed.
+
+  Lemma decode_question_err c e : decode_question bs id c = Err e -> snd e = Some id.
+  Proof. intro H. unfold decode_question in H. err_bind H. discriminate H. Qed.
+
+  (* ---- the four count loops ---- *)
+  Section Many.
+    Context {A : Type}.
+    Variable f : cur -> res werr (A * cur).
+    Variable P : N -> A -> N -> Prop.
+
+    Lemma decode_many_sound :
+      (forall p x c', f (at_offset bs p) = Ok (x, c') ->
+         exists q, P p x q /\ c' = at_offset bs q /\ q <= llen bs) ->
+      forall k p xs c', p <= llen bs -> decode_many f k (at_offset bs p) = Ok (xs, c') ->
+        exists q, SeqAt P p xs q /\ length xs = k /\ c' = at_offset bs q /\ q <= llen bs.
+    Proof.
+      intros Hf. induction k as [|k IH]; intros p xs c' Hp H; cbn [decode_many] in H.
+      - injection H as <- <-. exists p. cbn [SeqAt length]. auto.
+      - inv_bind H. apply Hf in Eq as (q & HP & -> & Hq).
+        inv_bind H. apply IH in Eq as (q2 & Hseq & Hlen & -> & Hq2); [|exact Hq].
+        injection H as <- <-. exists q2. cbn [SeqAt length].
+        split; [exists q; auto|]. split; [congruence|auto].
+    Qed.
+
+    Lemma decode_many_complete :
+      (forall p x q, P p x q -> f (at_offset bs p) = Ok (x, at_offset bs q)) ->
+      forall xs p q, SeqAt P p xs q ->
+        decode_many f (length xs) (at_offset bs p) = Ok (xs, at_offset bs q).
+    Proof.
+      intros Hf. induction xs as [|x xs IH]; intros p q H; cbn [length decode_many SeqAt] in *.
+      - subst q. reflexivity.
+      - destruct H as (mid & Hx & Hrest). rewrite (Hf _ _ _ Hx). cbn [bind].
+        rewrite (IH _ _ Hrest). reflexivity.
+    Qed.
+
+    Lemma decode_many_fine :
+      (forall p, fine (f (at_offset bs p))) ->
+      (forall p x c', f (at_offset bs p) = Ok (x, c') -> exists q, c' = at_offset bs q) ->
+      forall k p, fine (decode_many f k (at_offset bs p)).
+    Proof.
+      intros Hfine Hcur. induction k as [|k IH]; intro p; cbn [decode_many]; [auto|].
+      apply fine_bind; [apply Hfine|]. intros [x c1] Eq. apply Hcur in Eq as (q & ->).
+      apply fine_bind; [apply IH|]. intros [xs c2] _. auto.
+    Qed.
+
+    Lemma decode_many_err :
+      (forall c e, f c = Err e -> snd e = Some id) ->
+      forall k c e, decode_many f k c = Err e -> snd e = Some id.
+    Proof.
+      intros Hf. induction k as [|k IH]; intros c e H; cbn [decode_many] in H; [discriminate|].
+      destruct (f c) as [[x c1]|e1| |] eqn:E1; cbn [bind] in H; try discriminate.
+      - destruct (decode_many f k c1) as [[xs c2]|e2| |] eqn:E2; cbn [bind] in H; try discriminate.
+        injection H as <-. eapply IH; eassumption.
+      - injection H as <-. eapply Hf; eassumption.
+    Qed.
+  End Many.
+End Body.
+
 Lemma decode_short bs : llen bs < 2 -> decode bs = Err (CompletelyBusted, None).
 Proof.
   destruct bs as [|a [|b t]]; intro H; try reflexivity.
